@@ -470,8 +470,16 @@ FMT_TEMPLATES = [
     ("e", "{ME:e}", []),
     ("d", "é{ME}ü", []),
     ("", "{:?}", ["ME"]),
+    ("", "blank\n\nline", []),
+    ("d", "{ME}\n\n{ME}", []),
+    ("d", "{ME }", []),
+    ("d", "{:>8 }", ["ME"]),
+    ("d", "{:.*}", ["3", "ME"]),
 ]
-PARAM_TEMPLATES = [("d", "{ME}", []), ("d", "{}", ["ME"]), ("", "{ME:?}", []), ("d", "é{ME}ü", [])]
+# for fields whose type is a type parameter: forms whose trait bound the documentation says is inferred
+# (incl. std::fmt grammar corners the literal parser must follow: whitespace before `}`, `.*`)
+PARAM_TEMPLATES = [("d", "{ME}", []), ("d", "{}", ["ME"]), ("", "{ME:?}", []), ("d", "é{ME}ü", []),
+                   ("d", "{ME }", []), ("d", "{:>8 }", ["ME"]), ("d", "{:.*}", ["3", "ME"]), ("", "{ME:?  }", [])]
 RAWFIELD_TEMPLATES = [("d", "{}", ["ME"]), ("", "{:?}", ["ME"]), ("", "fixed text", [])]
 
 
@@ -677,7 +685,7 @@ def make_case(cid, tds, rng, allspecs, n_main, n_wrap, vals_per_struct):
     rest = list(range(len(MANDATORY), len(allspecs)))
 
     def sel(n):
-        s = mand[:min(n, 12)] + rng.sample(mand[12:], min(max(0, n // 4), len(mand) - 12))
+        s = mand[:min(n, 12)] + rng.sample(mand[12:], min(max(0, n // 8), len(mand) - 12))
         s += rng.sample(rest, max(0, n - len(s)))
         return s
 
@@ -731,41 +739,45 @@ def rawsub(text, raws):
     return re.sub(r"(?<![\w#])(%s)(?!\w)" % "|".join(re.escape(r) for r in sorted(raws, key=len, reverse=True)), r"r#\1", text)
 
 
-def judge(ctx, c, e, model):
-    """Classify one (got != want) event."""
+def judge(c, e, model):
+    """Violation keys for one (got != want) event."""
     tag, spec = e["kind"].rsplit("|", 1)
     fl = spec_flags(spec)
     got, want = e["got"], e["want"]
     raws = c.meta["raw"]
     # the recorded defect's class: a printed tuple struct/variant with a plain field, `#` and another flag
     in_class = bool(c.meta["aff"].get(tag)) and fl["alt"] and fl["other"]
-    keys = []
     if in_class and model != want and got == model:
-        keys = ["known:pretty-tuple-flags"]
-    elif raws and got == rawsub(want, raws):
-        keys = ["known:raw-ident-name"]
-    elif raws and in_class and model != want and got == rawsub(model, raws):
-        keys = ["known:pretty-tuple-flags", "known:raw-ident-name"]
-    else:
-        kinds = sorted(set(k for cl in c.meta["classes"] for k in cl[1]))
-        feats = sorted(set(x for cl in c.meta["classes"] for x in cl[2:] if x))
-        keys = ["mismatch:%s:%s:%s" % (spec_class(spec), ",".join(kinds), ",".join(feats))]
-    for key in keys:
-        ctx.bump(key.replace("known:", "known_") if key.startswith("known:") else "mismatches")
-        ctx.violate(key, "%s [%s]: derive_more %r, std %r%s" % (c.meta["what"][:300], e["kind"], got[:300], want[:300],
-                                                                  (", defect model %r" % model[:200]) if model != want else ""),
-                    case={"what": c.meta["what"], "raw": raws}, types=c.meta["types"], values=c.meta["vfun"], event=e, model=model,
-                    files={"case.rs": c.items + "\n// run():\n" + c.body})
+        return ["known:pretty-tuple-flags"]
+    if raws and got == rawsub(want, raws):
+        return ["known:raw-ident-name"]
+    if raws and in_class and model != want and got == rawsub(model, raws):
+        return ["known:pretty-tuple-flags", "known:raw-ident-name"]
+    kinds = sorted(set(k for cl in c.meta["classes"] for k in cl[1]))
+    feats = sorted(set(x for cl in c.meta["classes"] for x in cl[2:] if x))
+    return ["mismatch:%s:%s:%s" % (spec_class(spec), ",".join(kinds), ",".join(feats))]
+
+
+def report(ctx, c, bykey):
+    """One violation per (case, key); the first event is the witness, the rest are counted."""
+    for key, hits in bykey.items():
+        e, model = hits[0]
+        ctx.bump((key.replace("known:", "known_") if key.startswith("known:") else "mismatch") + "_events", len(hits))
+        ctx.violate(key, "%s [%s]: derive_more %r, std %r%s (%d event(s) of this kind in the case)" % (
+            c.meta["what"][:300], e["kind"], e["got"][:300], e["want"][:300],
+            (", defect model %r" % model[:200]) if model != e["want"] else "", len(hits)),
+            case={"what": c.meta["what"], "raw": c.meta["raw"]}, types=c.meta["types"], values=c.meta["vfun"], event=e, model=model,
+            more=[h[0] for h in hits[1:6]], files={"case.rs": c.items + "\n// run():\n" + c.body})
 
 
 def run(ctx):
     rng = ctx.rng
     grid_all = spec_grid()
-    extra = [s for s in rng.sample(grid_all, ctx.pick(140, 330)) if s not in MANDATORY]
+    extra = [s for s in rng.sample(grid_all, ctx.pick(240, 700)) if s not in MANDATORY]
     allspecs = MANDATORY + extra
     for s in allspecs:
         spec_flags(s)
-    n_main, n_wrap = ctx.pick(24, 48), ctx.pick(8, 12)
+    n_main, n_wrap = ctx.pick(32, 64), ctx.pick(10, 16)
     cases = []
     n_types = 0
     # (1) exhaustive skip subsets
@@ -774,7 +786,7 @@ def run(ctx):
         cases.append(make_case("k%d" % (i // 4), sk[i:i + 4], rng, allspecs, n_main, n_wrap, 1))
         n_types += len(sk[i:i + 4])
     # (2) random groups of 1..3 types, later ones nesting earlier ones
-    target = ctx.pick(300, 5000)
+    target = ctx.pick(1200, 24000)
     i = 0
     while n_types < target:
         nt = rng.choice((1, 2, 3, 3))
@@ -829,15 +841,19 @@ def run(ctx):
         model_diffs += len(models)
         ncmp = 0
         died = False
+        bykey = {}
         for e in evs:
             if "got" in e and "want" in e:
                 ncmp += 1
                 if e["got"] != e["want"]:
-                    judge(ctx, c, e, models.get(e["kind"], e["want"]))
+                    m = models.get(e["kind"], e["want"])
+                    for key in judge(c, e, m):
+                        bykey.setdefault(key, []).append((e, m))
             elif e.get("kind") in ("panic", "crash"):
                 died = True
                 ctx.violate("panic:%s" % (c.cls[0],), "%s: generated program %s: %s" % (c.meta["what"][:300], e["kind"], e.get("val", "")[:300]),
                             case=c.meta["what"], types=c.meta["types"], event=e, files={"case.rs": c.items + "\n// run():\n" + c.body})
+        report(ctx, c, bykey)
         ctx.bump("events_compared", ncmp)
         if ncmp < c.expect and not died:
             short += 1
